@@ -11,20 +11,25 @@ from .run import execute_isolated
 CANON_FIRST = ('sched', 'mpi', 'gomp', 'pool', 'fault', 'poison')
 
 
-def minimise(prop_mod, tape, vclass, tier='quick', budget=200, opts=None, prefix=(), deadline=None):
-    """Returns (tape, prefix, result, executions)."""
+def minimise(prop_mod, tape, vclass, tier='quick', budget=200, opts=None, prefix=(), deadline=None, seed=None):
+    """Returns (tape, prefix, result, executions).  `tape` may come back as {'__seed__': [seed]} when the failure only
+    reproduces in the exact process state of the original execution (target drawn from its seed, not replayed from a tape)."""
     state = {'n': 0}
     best = {k: list(v) for k, v in tape.items()}
     prefix = list(prefix)
+    by_seed = {'on': False}
 
     def exhausted():
-        return state['n'] >= budget or (deadline is not None and time.time() > deadline and state['n'] >= 2)
+        return state['n'] >= budget or (deadline is not None and time.time() > deadline and state['n'] >= 3)
 
     def fails(cand, pre):
         if exhausted():
             return None
         state['n'] += 1
-        r = execute_isolated(prop_mod, pre, 0, tier, replay=cand, wall_limit=60, opts=opts)
+        if by_seed['on']:
+            r = execute_isolated(prop_mod, pre, seed, tier, replay=None, wall_limit=60, opts=opts)
+        else:
+            r = execute_isolated(prop_mod, pre, 0, tier, replay=cand, wall_limit=60, opts=opts)
         if r.status == 'violation' and r.vclass == vclass:
             return r
         return None
@@ -36,6 +41,10 @@ def minimise(prop_mod, tape, vclass, tier='quick', budget=200, opts=None, prefix
             prefix = []
     if last is None:
         last = fails(best, prefix)
+    if last is None and seed is not None and prefix:
+        # exactly the original execution: same prefix, target drawn from its seed
+        by_seed['on'] = True
+        last = fails(None, prefix)
     if last is None:
         return None, prefix, None, state['n']
     # shrink the prefix (delta debugging, coarse to fine)
@@ -50,6 +59,8 @@ def minimise(prop_mod, tape, vclass, tier='quick', budget=200, opts=None, prefix
             else:
                 i += span
         span //= 2
+    if by_seed['on']:
+        return {'__seed__': [seed]}, prefix, last, state['n']
     if last.tape:
         best = {k: list(v) for k, v in last.tape.items()}
 
